@@ -493,11 +493,13 @@ func TestC12(t *testing.T) {
 	out := emit.NewWriter("Model.HeightSub Oracle.C12", "case12", "chk12")
 	out.PerShard(500)
 	thorough := emit.Thorough()
-	out.Rule = "scenario = readers (requested heights) + macro operations {start reader held at its first index read / not held, release, Append batch with the flush " +
-		"free / held after Notify in advanceHead's index read, release flush, cancel reader}; each macro op is followed by synctest.Wait and expanded into the model's " +
-		"schedule; sweep: prefix {empty, [1,2]} x batch shape {contiguous 1, contiguous 2, gapped, unordered, with hole} x requested height {each appended, below, beyond} x " +
-		"all merges of the reader's and the flush's macro sequences x cancel position (sampled in quick, all in thorough); plus random scenarios with 2-3 readers, 1-4 batches, " +
-		"WriteBatchSize {1,2,64}; plus free-running race rounds (big batches) checked by the oracle; distinct by scenario; non-trivial when a reader was blocked at some point or woken"
+	out.Rule = "scenario = readers (requested heights) + macro operations {start reader, optionally held in the height-index read of its first lookup and/or of its " +
+		"second one (the re-lookup after registering); release; Append batch with the flush free / held after Notify in advanceHead's index read; release flush; " +
+		"cancel reader}; each macro op is followed by synctest.Wait and expanded into the model's schedule; corpus (former lost wake-up F5 and variants) first; " +
+		"sweep: prefix {empty, [1,2]} x batch shape {contiguous 1, contiguous 2, gapped, unordered, with hole} x requested height {each appended, below, beyond, stored, 0} x " +
+		"4 reader hold modes x 2 flush hold modes x all merges of the reader's and the flush's macro sequences x cancel position (sampled in quick, all in thorough) + gap-filling " +
+		"batch; plus random scenarios with 2-3 readers, 1-4 batches, WriteBatchSize {1,2,64}; plus free-running race rounds (long batches, spinning gates, header-method hook) " +
+		"whose model outcome is schedule-independent; distinct by scenario; non-trivial when a reader or the flush was held, a context cancelled, or a race round"
 	w := newWorld()
 	add := func(sc scen) {
 		r := runScenario(t, w, sc)
@@ -582,6 +584,9 @@ func TestC12(t *testing.T) {
 							}
 							ops := append(pre, m...)
 							name := fmt.Sprintf("sweep/p%d/%s/n%d/r%d/wg%v/m%d", len(prefix), sh.name, n, rmode, wg, mi)
+							if !thorough && rng.Chance(35) {
+								continue // quick: a seed-dependent 65% sample of the sweep; thorough: all of it
+							}
 							add(scen{Name: name, Ns: []uint64{n}, Ops: ops, Batch: 64})
 							// cancellation at every / one position
 							var ps []int
